@@ -95,6 +95,18 @@ let file_stepper store = file_step true (store.[4] = '1') (store.[5] = '1')
    working-directory path = hash,length of the regular files; OCI store: blob file = hash,length *)
 let show_disk l = "K:" ^ String.concat ";" (List.sort compare l)
 let run_store store ops =
+  if is_file store && store.[4] = 'L' then begin
+    (* file store created with NewWithFallbackLimit(dir, 400): Model/StoresFileLimit.v *)
+    let lim = n_of_int 400 in
+    let show_lout = function LLimit -> "err:sizelimit" | LOut x -> show_fout x in
+    let (st, outs) = runl (file_step_lim lim true false (store.[5] = '1')) file_init ops in
+    let l = List.map show_lout outs in
+    let alias_free = List.for_all (function
+        | Push (d, c) -> ii (d_name d) <> 5 && List.for_all (fun (_, n) -> ii n <> 5) (c.b_tl @ c.b_pre_tl)
+        | _ -> true) ops in
+    let sl = if alias_free then List.map show_lout (snd (runl (fspec_step_lim lim false) fspec_init ops)) else l in
+    (l, sl, show_disk (List.map (fun (p, c) -> Printf.sprintf "%d=%d,%d" (ii p) (ii c.b_hash) (ii c.b_len)) st.f_disk))
+  end else
   if is_file store then begin
     let (st, outs) = runf (file_stepper store) file_init ops in
     let l = List.map show_fout outs in
